@@ -103,6 +103,16 @@ func TestDiff(t *testing.T) {
 				pk.NonTrivial(px.ProgText(c), map[string]any{"program": c.Modules["main"]})
 			}
 		} else {
+			// The model cannot run this program, so it cannot tell whether the trigger of an open
+			// aliasing finding occurs: exclude the programs that contain its syntactic ingredients.
+			if pk.GateOpen("slot-operand") && g.Feat["assign-elem"]+g.Feat["assign-field"] > 0 {
+				pk.Gate("slot-operand(static)")
+				return
+			}
+			if pk.GateOpen("tree-var-operand") && g.Feat["assign-in-expr"]+g.Feat["assign-global"] > 0 {
+				pk.Gate("tree-var-operand(static)")
+				return
+			}
 			pk.Class("outside-model")
 			pk.NonTrivial(px.ProgText(c), map[string]any{"program": c.Modules["main"]})
 		}
